@@ -143,12 +143,15 @@ impl Drop for Running {
 }
 
 fn free_port() -> Option<u16> {
-    let l = TcpListener::bind((Ipv4Addr::LOCALHOST, 0)).ok()?;
-    let port = l.local_addr().ok()?.port();
-    let u = UdpSocket::bind((Ipv4Addr::LOCALHOST, port)).ok()?;
-    drop(u);
-    drop(l);
-    Some(port)
+    // a port that is free for TCP and for UDP (the UDP port of the same number may be taken)
+    for _ in 0..200 {
+        let Ok(l) = TcpListener::bind((Ipv4Addr::LOCALHOST, 0)) else { continue };
+        let Ok(addr) = l.local_addr() else { continue };
+        if UdpSocket::bind((Ipv4Addr::LOCALHOST, addr.port())).is_ok() {
+            return Some(addr.port());
+        }
+    }
+    None
 }
 
 fn start(cfg: &ProviderCfg) -> Option<Running> {
